@@ -30,7 +30,19 @@ MIN_EVENTS = {'quick': {'assert:and': 2000, 'assert:or': 1200, 'assert:not': 600
 
 
 # ------------------------------------------------------------ member zoo (JSON spec -> function)
-def member(spec):
+def member(spec, inplace=False):
+    """inplace=True: the member edits the vector it is handed and returns that same object (legal for a constraint)"""
+    pure = _member(spec)
+    if not inplace:
+        return pure
+    def c(x):
+        y = pure(x)
+        x[:] = y
+        return x
+    return c
+
+
+def _member(spec):
     k = spec[0]
     if k == 'pin':
         _, i, v = spec
@@ -136,8 +148,13 @@ def run_combinator(kind, rng, obs, hostile=False):
         if rng.random() < 0.25 and kind == 'and':      # force a conflict / cycle
             i = rng.randrange(dim)
             specs = [['pin', i, 1.0], ['pin', i, 2.0]] + specs[:rng.randint(0, 1)]
-    mine = [member(s) for s in specs]                  # the oracle's own copies
-    theirs = [CountCalls(member(s)) for s in specs]
+    if not hostile and kind == 'and' and rng.random() < 0.2 and dim >= 3:
+        # a chain that needs several sweeps to settle: ties handed down the vector plus a pin at its head
+        order = list(range(dim)); rng.shuffle(order)
+        specs = [['tie', order[j], order[j + 1]] for j in range(dim - 1)][::-1] + [['pin', order[0], rng.choice([1.0, 2.0, -1.5])]]
+    inplace = [rng.random() < 0.5 for _ in specs]
+    mine = [member(s) for s in specs]                  # the oracle's own (pure) copies
+    theirs = [CountCalls(member(s, ip)) for s, ip in zip(specs, inplace)]
     x0 = gen_x(rng, dim)
     maxiter = rng.choice([None, None, 1, 2, 5, 30])
     paths = Paths()
@@ -150,7 +167,7 @@ def run_combinator(kind, rng, obs, hostile=False):
     with Counter() as cnt:
         out = comb(xin)
     out = list(out)
-    obs.desc = {'kind': kind, 'members': specs, 'x': x0, 'maxiter': maxiter}
+    obs.desc = {'kind': kind, 'members': specs, 'inplace': inplace, 'x': x0, 'maxiter': maxiter}
     tag = kind if not hostile else 'and'
     obs.check(xin == x0, tag + ':the input vector is not modified', x=x0, observed=xin)
     obs.check(len(paths.fired) == 1, tag + ':exactly one of the success/failure paths is taken',
